@@ -231,14 +231,17 @@ func stateAsof(args asofArgs) *DbState {
 	store := args.store
 	var offSchema, offInfo uint64
 	var t int64
+	var stateOff uint64 // the offset of the state that the above are from
 	off := store.Size()
 	for {
 		if off = store.LastOffset(off, magic1, nil); off == 0 {
-			break
+			break // no state <= asof, use the initial (oldest) state
 		}
-		if offSchema, offInfo, t = readState(store, off); t == 0 {
+		os, oi, t2 := readState(store, off)
+		if t2 == 0 {
 			continue // invalid
 		}
+		offSchema, offInfo, t, stateOff = os, oi, t2, off
 		if t <= args.asof {
 			break
 		}
@@ -246,7 +249,7 @@ func stateAsof(args asofArgs) *DbState {
 	if t == 0 {
 		panic("no state found")
 	}
-	return &DbState{store: store, Asof: t, Off: off,
+	return &DbState{store: store, Asof: t, Off: stateOff,
 		Meta: meta.ReadMeta(store, offSchema, offInfo)}
 }
 
